@@ -25,6 +25,23 @@ def split_goal(g, depth=0):
     """[(extra hypotheses, subgoal)]: conjunctions are proved conjunct by conjunct (much easier for the solver)"""
     if depth > 3:
         return [((), g)]
+    if z3.is_quantifier(g) and g.is_forall() and g.num_patterns() == 0:
+        # forall x. G -> (A and B)   ==>   (forall x. G -> A), (forall x. G -> B)
+        n = g.num_vars()
+        vs = [z3.Const("sp_%s_%d_%d" % (g.var_name(i), depth, i), g.var_sort(i)) for i in range(n)]
+        body = z3.substitute_vars(g.body(), *reversed(vs))
+        guard, core = None, body
+        if z3.is_implies(body):
+            guard, core = body.children()
+        elif z3.is_or(body) and len(body.children()) == 2 and z3.is_not(body.children()[0]):
+            guard, core = body.children()[0].children()[0], body.children()[1]
+        if z3.is_and(core) and len(core.children()) > 1:
+            out = []
+            for c in core.children():
+                piece = z3.ForAll(vs, z3.Implies(guard, c) if guard is not None else c)
+                out.append(((), piece))
+            return out
+        return [((), g)]
     if z3.is_and(g):
         # conjunct i is proved under conjuncts 1..i-1 (sound: A and B  <=>  A and (A -> B))
         out = []
